@@ -10,6 +10,7 @@ import re
 from lib.common import *
 from lib.containers import CONTAINERS, pick_elems, render_ok
 from lib.oracle import canon
+from lib.oracle import canon as _canon_full
 from lib.progs import relayout
 
 LEVEL = 'proof'
@@ -984,6 +985,7 @@ def stage_arguments_sweep(ctx: Ctx):
     keeps the category it has where it comes from): when those elements in that order form valid arguments the put is carried out and gives exactly them (markers re-derived),
     otherwise it is refused without a trace; def and lambda; put_slice / view slice assignment"""
     import fst
+    canon = lambda a: _canon_full(a, args_flat=False)        # the category of every argument is part of the expected structure
     for lam in (False, True):
         for old in ARGS_OLDS:
             olds = _arg_elems(old, lam)
